@@ -26,7 +26,7 @@ tot = unc = 0
 for pid in [json.loads(l)['id'] for l in open(os.path.join(V, 'properties.jsonl'))]:
     mod = importlib.import_module('rules.' + pid)
     ctx = R.Ctx(pid, F, 'quick', 0)
-    mod.run(ctx)
+    R.run_module(mod, ctx)
     inst = sorted({'%s/%s' % (o['rule'], o['instance']) for o in ctx.obligations if not o['instance'].startswith('floor_')})
     miss = [i for i in inst if not any(f == i or f.startswith(i + '/') or i.startswith(f) for f in fired)]
     tot += len(inst)
